@@ -206,6 +206,18 @@ CHECKS["C16"] = dict(
          "decide primality of arbitrary 64-bit numbers.",
     technique="TLC trace validation (C->S) against definitional primality/factorisation/gcd/lcm + factor-witness identities on bytes",
     ref="3/C16")
+CHECKS["C05"] = dict(
+    text="ECDH.tla is the ECDH object as a state machine (curve / private / public slots; one action per public method with its "
+         "outcome: ok, the exception class the property names, or the secret). TLC checks SecretIff (a secret is computed iff both "
+         "keys are present and all three curves agree), that only validated keys reach the public slot, and that failed calls change "
+         "nothing, over all call sequences. S->C: every transition (abstract state x call with arguments) of TLC's state graph is "
+         "replayed on real ECDH objects on a prime-order and a cofactor-4 toy curve through every loader (object, bytes, 4 point "
+         "encodings, DER, PEM, generated), comparing outcome class, the three slots after each step, the secret with x(dA dB G), the "
+         "peer's secret and the fixed-length byte form; random walks of 6-15 calls over the unbounded machine catch hidden state. "
+         "Production: 17 curves x boundary scalar pairs (one with a leading-zero secret found by search), invalid remote keys refused.",
+    note="Trusted: TLC, harness affine arithmetic for x(dA dB G) on toy curves. Loading raw bytes before a curve is set is outside the property.",
+    technique="TLC model checking of ECDH.tla + replay of TLC's state graph and random walks into real ECDH objects (S->C)",
+    ref="3/C05")
 NOT_YET = {}
 
 
